@@ -408,6 +408,39 @@ func c19Cases(svcs []c19Svc, thorough bool) []c19Case {
 			}
 		}
 	}
+	// scale: stacked wildcards. Every subset of the wildcard chain above a service (*, a.*, a.b.*,
+	// a.b.S.* ...) together with every pair of rules on other branches or on the method itself, in
+	// three list orders: lists of up to 6 selectors
+	for _, s := range svcs {
+		parts := strings.Split(s.full, ".")
+		chain := []string{"*"}
+		for i := 1; i <= len(parts); i++ {
+			chain = append(chain, strings.Join(parts[:i], ".")+".*")
+		}
+		branches := []string{s.full + ".M", "a.b.S.M", "a.b.Sx.M", "a.S.M", "a.Sx.M", "ab.S.M", "a.D.M", "a.D.*", "a.b.Sx.*", "ab.*", "zz.*"}
+		for mask := 1; mask < 1<<len(chain); mask++ {
+			var ws []string
+			for i, w := range chain {
+				if mask&(1<<i) != 0 {
+					ws = append(ws, w)
+				}
+			}
+			if len(ws) < 2 {
+				continue
+			}
+			for i := range branches {
+				for j := i + 1; j < len(branches); j++ {
+					b1, b2 := branches[i], branches[j]
+					if i > 0 && b1 == branches[0] || b2 == branches[0] && j > 0 {
+						continue // the method's own exact selector is listed once
+					}
+					out = append(out, c19Case{Kind: "selectors", Service: s.full, Selectors: append(append([]string{}, ws...), b1, b2)},
+						c19Case{Kind: "selectors", Service: s.full, Selectors: append([]string{b2, b1}, ws...)},
+						c19Case{Kind: "selectors", Service: s.full, Selectors: append(append([]string{b1}, ws...), b2)})
+				}
+			}
+		}
+	}
 	maxSeg := 2
 	if thorough {
 		maxSeg = 3
@@ -435,7 +468,7 @@ func c19Cases(svcs []c19Svc, thorough bool) []c19Case {
 
 func runC19(c *Ctx) {
 	r := c.Run
-	r.Rule("selector lists of length <= 2 (thorough: <= 3) over {every component prefix of a.S.M, a.Sx.M, a.b.S.M, ab.S.M, a.D.M, a.D.Mx and unrelated names, each plain and with '.*'; '*'; case variants; a wildcard below a method} × each of 7 services (packages a, a.b, ab; services S, Sx, D) registered alone on a fresh mux, every selector with its own path; equivalence of service-config and annotation binding for every template of the reduced alphabet (<= 2 segments, thorough <= 3) × kinds × body selectors over the near-miss probe set; a service-config rule (4 selectors) on a method that also carries an annotation on the same path and verb: the config rule's body mapping and additional bindings and the annotation's additional binding all work; healthz for service names × serving statuses over GET (both routes) and WebSocket watch × {no rules of the owner's own for the health methods, alias rules before AddHealthz, after it, a Check rule with an additional binding before it: every alias and /v1/healthz are served}; distinct = (kind, service, selector set / rule / health case)")
+	r.Rule("selector lists of length <= 2 (thorough: <= 3) over {every component prefix of a.S.M, a.Sx.M, a.b.S.M, ab.S.M, a.D.M, a.D.Mx and unrelated names, each plain and with '.*'; '*'; case variants; a wildcard below a method} × each of 7 services (packages a, a.b, ab; services S, Sx, D) registered alone on a fresh mux, every selector with its own path; stacked wildcards: every subset (>= 2) of the wildcard chain above each service × every pair of rules on other branches or on the method itself × 3 list orders (lists of up to 6 selectors); equivalence of service-config and annotation binding for every template of the reduced alphabet (<= 2 segments, thorough <= 3) × kinds × body selectors over the near-miss probe set; a service-config rule (4 selectors) on a method that also carries an annotation on the same path and verb: the config rule's body mapping and additional bindings and the annotation's additional binding all work; healthz for service names × serving statuses over GET (both routes) and WebSocket watch × {no rules of the owner's own for the health methods, alias rules before AddHealthz, after it, a Check rule with an additional binding before it: every alias and /v1/healthz are served}; distinct = (kind, service, selector set / rule / health case)")
 	r.Assume("selector lists under which one path would be bound to two methods of the registered service are skipped (a conflict by construction)", "invalid selectors ('*' not last) are not explored")
 	svcs := c19Services()
 	cases := c19Cases(svcs, c.Thorough())
